@@ -5,6 +5,7 @@ import (
 	"context"
 	"errors"
 	"fmt"
+	"github.com/atlassian/gostatsd/pkg/backends/sender"
 	"math"
 	"net/http"
 	"os"
@@ -36,18 +37,47 @@ type cfg struct {
 	Always int
 	// Parallel: the flush requests are issued together (one per aggregator of one flush) instead of one after the other
 	Parallel bool `json:",omitempty"`
+	// LateCancel: the cancellation may also come after the first LateCancel clock steps (retry / reconnect timers firing)
+	LateCancel int `json:",omitempty"`
+	// MaxStreams: the sender recycles its connection after that many streams (the constant is 100; 0 leaves it alone)
+	MaxStreams int `json:",omitempty"`
+	// ZeroWindow: the retry window is configured as 0. A backend may refuse that at start-up; one that accepts it must still
+	// complete every request although the upstream refuses every attempt
+	ZeroWindow bool `json:",omitempty"`
+	// Stall: a write may also meet a peer that has stopped reading: it ends with a timeout when the connection's write
+	// deadline passes - and never, if the sender set none on that connection
+	Stall bool `json:",omitempty"`
 	// Hist: the flushed map also holds a histogram timer (visited after the counters, i.e. after a batch roll-over)
 	Hist bool `json:",omitempty"`
 }
 
 func (c cfg) String() string {
 	if c.Always != 0 {
-		return fmt.Sprintf("%s-s%d-b%d-q%d-always%d-el%v-r%d", c.Kind, c.Series, c.Batch, c.Requests, c.Always, c.Elapsed, c.MaxReq)
+		return fmt.Sprintf("%s-s%d-b%d-q%d-always%d-el%v-r%d", c.Kind, c.Series, c.Batch, c.Requests, c.Always, c.Elapsed, c.MaxReq) + c.suffix()
 	}
 	if c.Parallel {
 		return fmt.Sprintf("%s-s%d-b%d-q%d-f%d-c%v-el%v-r%d-parallel", c.Kind, c.Series, c.Batch, c.Requests, c.Failures, c.Cancel, c.Elapsed, c.MaxReq)
 	}
-	return fmt.Sprintf("%s-s%d-b%d-q%d-f%d-c%v-el%v-r%d", c.Kind, c.Series, c.Batch, c.Requests, c.Failures, c.Cancel, c.Elapsed, c.MaxReq) + map[bool]string{true: "-hist"}[c.Hist]
+	return fmt.Sprintf("%s-s%d-b%d-q%d-f%d-c%v-el%v-r%d", c.Kind, c.Series, c.Batch, c.Requests, c.Failures, c.Cancel, c.Elapsed, c.MaxReq) + map[bool]string{true: "-hist"}[c.Hist] + map[bool]string{true: "-stall"}[c.Stall] + c.suffix()
+}
+
+// cancelSegments: in how many of the stretches between clock steps (the first ones) the cancellation may come
+func (c cfg) cancelSegments() int {
+	if c.LateCancel > 0 {
+		return c.LateCancel + 1
+	}
+	return 1
+}
+
+func (c cfg) suffix() string {
+	s := map[bool]string{true: "-window0"}[c.ZeroWindow]
+	if c.LateCancel > 0 {
+		s += fmt.Sprintf("-latecancel%d", c.LateCancel)
+	}
+	if c.MaxStreams > 0 {
+		s += fmt.Sprintf("-maxstreams%d", c.MaxStreams)
+	}
+	return s
 }
 
 type cbRec struct {
@@ -63,6 +93,7 @@ type run struct {
 	faults      []string
 	issued      int
 	cancelled   bool
+	refused     bool
 	overflowBad string
 	viol        string
 	violKey     string
@@ -112,8 +143,16 @@ func body(c cfg, r *run) func(*vsched.Exec) {
 		r.mock = mock
 		backoff.VerifNow = func() time.Time { return mock.Now() } // fixes the backoff jitter (the backends set b.Clock themselves)
 		ctx, cancel := context.WithCancel(base)
-		b, err := bk.New(c.Kind, bk.Opts{BatchSize: c.Batch, MaxRequests: c.MaxReq, MaxElapsed: c.Elapsed, MaxRetries: 2})
+		if !sender.VerifSetMaxStreams(map[bool]int{true: c.MaxStreams, false: 100}[c.MaxStreams > 0]) && c.MaxStreams > 0 {
+			r.refused = true // the limit is not where it used to be in this tree: the configuration cannot be set up
+			return
+		}
+		b, err := bk.New(c.Kind, bk.Opts{BatchSize: c.Batch, MaxRequests: c.MaxReq, MaxElapsed: c.Elapsed, MaxRetries: 2, ZeroElapsed: c.ZeroWindow})
 		if err != nil {
+			if c.ZeroWindow {
+				r.refused = true // a retry window of 0 is refused at start-up: nothing to run
+				return
+			}
 			panic(err)
 		}
 		r.b = b
@@ -157,7 +196,39 @@ func body(c cfg, r *run) func(*vsched.Exec) {
 			}
 			return nil
 		}
+		stalled := map[int]bool{}
+		if c.Stall {
+			never := make(chan struct{})
+			b.Env.Net.Stall = func(n int) bool {
+				if r.fault(3, "write") == 2 {
+					r.faults[len(r.faults)-1] = "write=stall"
+					stalled[n] = true
+					r.lostWrite = true
+					return true
+				}
+				if len(r.faults) > 0 && r.faults[len(r.faults)-1] == "write=1" {
+					stalled[-n-1] = true // decided: broken pipe
+				}
+				return false
+			}
+			b.Env.Net.Wait = func(until time.Time) {
+				if until.IsZero() {
+					r.faults = append(r.faults, "no-write-deadline")
+					vsched.Recv(never)
+				}
+				if d := until.Sub(mock.Now()); d > 0 {
+					vsched.Recv(vsched.EnvGet("clock").(clock.Clock).NewTimer(d).C)
+				}
+			}
+		}
 		b.Env.Net.WriteErr = func(n int, p []byte) error {
+			if c.Stall {
+				if stalled[-n-1] {
+					r.lostWrite = true
+					return errors.New("broken pipe")
+				}
+				return nil
+			}
 			if r.fault(2, "write") == 1 {
 				r.lostWrite = true
 				return errors.New("broken pipe")
@@ -229,8 +300,15 @@ func body(c cfg, r *run) func(*vsched.Exec) {
 				}
 			}
 		})
+		segObj := new(int)
+		segment := 0
 		if c.Cancel && c.Always != 4 {
 			vsched.GoNamed("canceller", func() {
+				// time passes only when nothing else can move, so a cancellation that is to meet a retry or reconnect timer
+				// has to wait for its turn: it comes at any point of the stretch between two clock steps that it picks
+				if seg := vsched.Choose(c.cancelSegments(), "cancel-in-stretch"); seg > 0 {
+					vsched.SyncOp(segObj, false, "wait-for-stretch", func() bool { return segment >= seg })
+				}
 				r.cancelled = true
 				vsched.Cancel(cancel)
 			})
@@ -268,6 +346,8 @@ func body(c cfg, r *run) func(*vsched.Exec) {
 			}
 			vsched.ClockOp(true, "advance-next")
 			mock.AddNext()
+			vsched.Access(segObj, true, "next-stretch")
+			segment++
 		}
 		vsched.Quiesce("end")
 		_ = cancel
@@ -294,6 +374,10 @@ func check(c cfg, r *run, outcomes map[string]struct{}) func(*vsched.Exec, vsche
 		}
 		if r.viol != "" {
 			return r.violKey, r.viol
+		}
+		if r.refused {
+			x.Note("retry-window-0-refused-at-start-up")
+			return "", ""
 		}
 		if r.overflowBad != "" {
 			return "cancelled-request-not-completed", c.Kind + ": " + r.overflowBad
@@ -373,6 +457,8 @@ func configs() []cfg {
 		cs = append(cs, cfg{Kind: k, Series: 1, Batch: 1, Requests: 2, Failures: 2, Cancel: false, Elapsed: -1, MaxReq: 2})
 		cs = append(cs, cfg{Kind: k, Series: 2, Batch: 1, Requests: 1, Failures: 0, Cancel: true, Elapsed: 3 * time.Second, MaxReq: 1})
 		cs = append(cs, cfg{Kind: k, Series: 0, Batch: 1, Requests: 1, Failures: 1, Cancel: true, Elapsed: 3 * time.Second, MaxReq: 1})
+		// cancellation that may also come after the first retry timer has fired
+		cs = append(cs, cfg{Kind: k, Series: 1, Batch: 1, Requests: 1, Failures: 2, Cancel: true, LateCancel: 2, Elapsed: 3 * time.Second, MaxReq: 1})
 		if vrt.Thorough() {
 			cs = append(cs, cfg{Kind: k, Series: 3, Batch: 1, Requests: 1, Failures: 2, Cancel: true, Elapsed: 3 * time.Second, MaxReq: 2})
 			cs = append(cs, cfg{Kind: k, Series: 1, Batch: 1, Requests: 2, Failures: 6, Cancel: false, Elapsed: 3 * time.Second, MaxReq: 1})
@@ -383,16 +469,24 @@ func configs() []cfg {
 			cs = append(cs, cfg{Kind: k, Series: 1, Batch: 2, Requests: 1, Always: a, Elapsed: 3 * time.Second, MaxReq: 1})
 		}
 	}
+	for _, k := range http {
+		cs = append(cs, cfg{Kind: k, Series: 1, Batch: 2, Requests: 1, Always: 1, MaxReq: 1, ZeroWindow: true})
+	}
 	// cancellation while a batch roll-over waits for a request buffer, with a histogram timer still to come
 	cs = append(cs, cfg{Kind: "influxdb1", Series: 1, Batch: 1, Requests: 1, Failures: 0, Cancel: true, Elapsed: 3 * time.Second, MaxReq: 1, Hist: true})
 	for _, k := range sock {
 		cs = append(cs, cfg{Kind: k, Series: 1, Requests: 2, Failures: 1})
 		cs = append(cs, cfg{Kind: k, Series: 1, Requests: 1, Failures: 2})
 		cs = append(cs, cfg{Kind: k, Series: 1, Requests: 1, Failures: 1, Cancel: true})
+		// the connection is recycled after every stream (a small value of the sender's streams-per-connection limit), two
+		// refused connections, and a cancellation that may come after the reconnect timers
+		cs = append(cs, cfg{Kind: k, Series: 1, Requests: 2, Failures: 2, Cancel: true, LateCancel: 3, MaxStreams: 1})
 		if vrt.Thorough() {
 			cs = append(cs, cfg{Kind: k, Series: 2, Requests: 2, Failures: 2, Cancel: true})
 		}
 	}
+	// a peer that stops reading (write deadline), after a refused connection during which the request was taken up
+	cs = append(cs, cfg{Kind: "graphite-tags", Series: 1, Requests: 1, Failures: 2, Stall: true}, cfg{Kind: "statsdaemon-tcp", Series: 1, Requests: 2, Failures: 2, Stall: true})
 	// two requests of one flush in flight together, three transport faults (refused, write error, refused again)
 	cs = append(cs, cfg{Kind: "statsdaemon-tcp", Series: 1, Requests: 2, Failures: 3, Parallel: true}, cfg{Kind: "graphite-tags", Series: 1, Requests: 2, Failures: 3, Parallel: true})
 	// more flush requests than the sender's queue holds (one held, ten queued, the twelfth waiting for room) while the
